@@ -232,7 +232,7 @@ class LinearPaths:
         merged.sequence.append(s)
       if not merged_name:
         merged.name.append(n)
-      if merged.LN:
+      if merged.LN is not None:
         if enable_tracking:
           if rn:
             rn = [pos - cut + merged.LN for pos in rn]
@@ -242,7 +242,7 @@ class LinearPaths:
               merged.rn += rn
           if mp and merged.mp:
             merged.mp += [pos - cut + merged.LN for pos in mp]
-        if segment.LN:
+        if segment.LN is not None:
           merged.LN += (segment.LN - cut)
         else:
           merged.LN = None
